@@ -83,7 +83,8 @@ OPT_OFFSET = 50_000_000
 
 
 def with_optimized_interpreter(specs, tier):
-    """The same workload under `python -O` (assert statements and `if __debug__` blocks compiled away): one extra
+    """The same workload under `python -O` / `python -OO` (assert statements and `if __debug__` blocks compiled away;
+    at level 2 every docstring is None): one extra
     shard per distinct kind of the plan, on case indices of its own where the spec has a range."""
     extra, seen = [], set()
     for sp in specs:
@@ -91,7 +92,7 @@ def with_optimized_interpreter(specs, tier):
         if k in seen or len(extra) >= OPT_SHARDS[tier]:
             continue
         seen.add(k)
-        e = dict(sp, pyopt=1)
+        e = dict(sp, pyopt=1 + len(extra) % 2)       # python -O and python -OO (docstrings stripped as well) in turn
         if isinstance(e.get("start"), int) and isinstance(e.get("count"), int):
             e["start"] += OPT_OFFSET
             e["count"] = max(1, min(e["count"], 400 if tier == "quick" else 4000))
@@ -181,8 +182,8 @@ def check(prop, tier, seed):
 
     cov = {"evaluations": int(m["evaluations"]), "distinct_nontrivial": int(distinct),
            "rule": mod.RULE + ("" if getattr(mod, "NO_OPT_SHARDS", False) else
-                               " Interpreter dimension: one extra shard per kind of the plan runs under `python -O` "
-                               "(assert statements compiled away), on case indices of its own."),
+                               " Interpreter dimension: one extra shard per kind of the plan runs under `python -O` / `python -OO` "
+                               "(assert statements compiled away, docstrings stripped), on case indices of its own."),
            "samples": m["samples"] or ["<none>"],
            "monitor_evaluations": dict(m["monitors"]), "classes": dict(sorted(m["counters"].items())),
            "discarded": dict(m["discards"]), "fp_warnings_recorded": dict(m["fp_warnings"]),
@@ -246,8 +247,9 @@ def replay(prop, path):
     case = v["case"]
     if isinstance(case, dict) and case.get("python_O") and not sys.flags.optimize:
         # found under `python -O`: replay under the same interpreter flags
-        return subprocess.call([sys.executable, "-O", "-m", "twverif.cli", prop, "--replay", path],
-                               env=dict(os.environ, PYTHONOPTIMIZE="1"), cwd=HOME)
+        lvl = str(int(case["python_O"]))
+        return subprocess.call([sys.executable, "-m", "twverif.cli", prop, "--replay", path],
+                               env=dict(os.environ, PYTHONOPTIMIZE=lvl), cwd=HOME)
     ctx = Ctx(prop, "replay", int(case.get("seed", 0)), case, replaying=True)
     print("replaying %s case %s" % (prop, json.dumps(case)[:400]))
     mod.replay(ctx, case)
